@@ -27,6 +27,13 @@ package json
 //@ axiom str_def(b bytes): strLen(b) == pos0(ite(len(b) == 0, 0, ite(b[0] == '"', 1, ite(b[0] != '\\', plus(1, strLen(b[1:])), ite(len(b) == 1, 0, ite(isEscB(b[1]), plus(2, strLen(b[2:])), ite(b[1] == 'u', plus(2, hexLen(b[2:], 0)), 0)))))))
 //@ axiom hex_def(b bytes, j int): hexLen(b, j) == pos0(ite(j >= 4, strLen(b), ite(len(b) == 0, 0, ite(isHexB(b[0]), plus(1, hexLen(b[1:], j + 1)), 0))))
 
+// strIb(b): how many bytes of a string body count as inspected: up to and including the closing
+// quote, or up to the first byte that cannot continue a string (a malformed escape is not counted).
+// Truncated mode accepts a header only if every byte was inspected, so this pins what may precede a cut.
+//@ ghostfun strIb(bytes) int
+//@ ghostfun hexIb(bytes, int) int
+//@ axiom strib_def(b bytes): strIb(b) == ite(len(b) == 0, 0, ite(b[0] == '"', 1, ite(b[0] != '\\', 1 + strIb(b[1:]), ite(len(b) == 1, 1, ite(isEscB(b[1]), 2 + strIb(b[2:]), ite(b[1] == 'u', 2 + hexIb(b[2:], 0), 1))))))
+//@ axiom hexib_def(b bytes, j int): hexIb(b, j) == ite(j >= 4, strIb(b), ite(len(b) == 0, 0, ite(isHexB(b[0]), 1 + hexIb(b[1:], j + 1), 0)))
 // numLen(b): the number token at the start of b. The property leaves number spelling to the
 // parser ("liberal number spelling"), so numLen is consumeNumber's own (deterministic) answer; what is
 // proved about it: every consumed byte is from the number alphabet.
@@ -109,12 +116,15 @@ package json
 //@   ensures [C08_J1] n > 0 ==> p.ib == old(p.ib) + n
 //@   ensures [C09_closed] n > 0 ==> b[n-1] == '"'
 //@   ensures [C09_G_str] n == strLen(b)
-//@   uses str_def, hex_def
+//@   ensures [C09_str_ib] p.ib == old(p.ib) + strIb(b)
+//@   uses str_def, hex_def, strib_def, hexib_def
 //@   loop 1 invariant 0 <= n && n <= len(b) && p.ib == old(p.ib) + n
 //@   loop 1 invariant [C09_G_str_inv] strLen(b) == plus(n, strLen(b[n:]))
+//@   loop 1 invariant [C09_str_ib_inv] strIb(b) == n + strIb(b[n:])
 //@   loop 1 decreases len(b) - n
 //@   loop 2 invariant 0 <= n && n <= len(b) && p.ib == old(p.ib) + n && 0 <= j && j <= 4 && n > at(1, n)
 //@   loop 2 invariant [C09_G_hex_inv] strLen(b) == plus(n, hexLen(b[n:], j))
+//@   loop 2 invariant [C09_hex_ib_inv] strIb(b) == n + hexIb(b[n:], j)
 //@   loop 2 decreases 4 - j
 
 //@ func json.(*parserState).consumeNumber
